@@ -12,3 +12,18 @@ HARNESSES = [
 ]
 ASSUMPTIONS = []
 EXPLANATION = "codecs executed from go/ssa on fully symbolic values and buffers"
+import sys, os
+sys.path.insert(0, os.path.dirname(os.path.dirname(os.path.abspath(__file__))))
+from symex import stubs as _stubs
+PATTERNS += ["./net/nts", "./net/ntske"]
+HARNESS_FILES += ["net/nts/zz_verif_c10.go", "net/ntske/zz_verif_c10.go"]
+INSTALL = [_stubs.install_aead]
+HARNESSES += [
+    {"name": "ntsfields0", "fn": M + "net/nts.VerifC14NTSFields0", "bounds": "unique id 32 bytes, one 8-byte cookie, no placeholder, authenticator"},
+    {"name": "ntsfields2", "fn": M + "net/nts.VerifC14NTSFields2", "bounds": "... two 8-byte placeholders"},
+    {"name": "ntsfields7", "fn": M + "net/nts.VerifC14NTSFields7", "bounds": "... seven 16-byte placeholders", "thorough_only": True},
+    {"name": "cookies", "fn": M + "net/ntske.VerifC10Cookie", "bounds": "server cookie with 32-byte keys, sealed and encoded by the real code"},
+]
+CLAIMED = True
+LEVEL_TEXT = "Bounded model checking of the real codecs on fully symbolic values and buffers: NTP header (value->bytes->value, bytes->value->bytes, accessors vs. first byte, setters), CSPTP message and request/response TLVs at their declared lengths, NTS extension fields (each decodes as the kind encoded, 4-byte aligned), server cookies (plain and encrypted)."
+LEVEL_NOTE = "NTS fields with aligned lengths only (32-byte id, 8/16-byte cookies); NTS-KE records and the segmentation independence of the record stream are covered by C20's ReadData harness, not here; ideal AEAD for the authenticator."
